@@ -97,7 +97,7 @@ def trace_monitors(rng, tier):
         out = E.run_session({'BTC-USDT': cs}, [('BTC-USDT', '1m')], scripts={'BTC-USDT': sc}, leverage=lev, mode=mode, fee=rng.choice([0.0, 0.001]),
                             fast=(k % 4 == 0), balance=1_000_000.0)
         if out['error']:
-            if 'Insufficient' in out['error'] or 'InvalidStrategy' in out['error']:
+            if E.benign_error(out['error']):
                 continue
             bad.append({'clause': 'session_error', 'error': out['error'], 'script': sc}); continue
         tr = out['trace']
